@@ -224,7 +224,8 @@ func Issue(spec CertSpec, parent *Cert, signKey crypto.Signer) *Cert {
 		}
 	}
 	if spec.BC {
-		if spec.MaxPathLen >= 0 {
+		if spec.MaxPathLen >= 0 && spec.IsCA { // crypto/x509 refuses to create a non-CA certificate with a path length
+
 			tmpl.MaxPathLen = spec.MaxPathLen
 			tmpl.MaxPathLenZero = spec.MaxPathLen == 0
 		} else {
